@@ -119,7 +119,7 @@ parser builds - `*` alone, or no leading `*`: the shape hypothesis of `C18_no_pa
 `parsed_select_shape` / `C18_parsed_select_has_the_shape` discharges for every parsed statement - and the
 FROM clause names neither `sys_pages` nor `sys_schema` (`UserTables`) -/
 def SelectSide : Sql.Stmt → Prop
-  | .select q => ((∃ a, q.list = [⟨.star, a⟩]) ∨ Exec.isStar q.list = false) ∧ UserTables q
+  | .select q => (Exec.NoPanicP.ParsedShape q) ∧ UserTables q
   | _ => True
 
 /-- the side conditions of the statement-level theorems, for the selected database (none for the
